@@ -230,9 +230,11 @@ where
     node: Node<'tree, D>,
     env: &mut Cow<MetaVarEnv<'tree, D>>,
   ) -> Option<Node<'tree, D>> {
+    // `not` never binds: when the inner rule matches, its bindings must not leak
+    let mut new_env = Cow::Borrowed(env.as_ref());
     self
       .not
-      .match_node_with_env(node.clone(), env)
+      .match_node_with_env(node.clone(), &mut new_env)
       .xor(Some(node))
   }
 }
